@@ -11,7 +11,7 @@ from .writer import cfg_text
 
 BASE = {"PType": 1, "MaxN": 8, "MaxP": 3, "MaxD": 2, "Ver": 1, "IdsN": "Ids8", "IdsP": "Ids3", "IdsD": "Ids2",
         "StrN": "SN", "StrP": "SP", "StrD": "SD", "Bnodes": "BN", "Lexes": "LX", "Langs": "LG", "NsNames": "NSN",
-        "AllowGen": True, "AllowStar": True, "Faults": "NoFaults", "FaultAt": 0, "HistLen": 30}
+        "AllowGen": True, "AllowStar": True, "Faults": "NoFaults", "FaultAt": 0, "KindsOverride": "NoOverride", "Exhaustive": False, "HistLen": 30}
 
 
 def consts(**kw):
